@@ -232,7 +232,7 @@ REGISTRY["C06"] = {
     "level": "exploration",
     "level_text": ("rapid-drawn event-based gateways with 2..3 alternatives (signal / message / message with operation; in a third of the cases the last alternative is a "
                    "duration timer on a mock clock whose due time can be reached before the gateway, while it waits - alone or concurrently with competing events - or after the decision; "
-                   "in a third the winner's branch loops back into the gateway), optionally behind a task, branches "
+                   "in a third the winner's branch loops back into the gateway; in two fifths the whole construct sits inside 1..2 nested embedded sub-processes), optionally behind a task, branches "
                    "ending separately or merging; scripts: an optional early event, a non-empty sequence of up to 4 competing / non-matching events of which "
                    "adjacent ones may be delivered concurrently from separate goroutines, the answer of the winner's task, then up to 6 late deliveries of "
                    "(losing) events; perturbation right after the compare-and-swap. Oracle: exactly one branch task requested - the first matching event's for "
